@@ -20,11 +20,18 @@ axiom('mmul.shape', forall([A_, B_], z3.And(mrows(mmul(A_, B_)) == mrows(A_), mc
                            [mmul(A_, B_)]), ['mmul'], 'algebra')
 
 
+def _shape_guard(run, cond, what):
+    """NumPy raises ValueError on a shape mismatch: the mismatch is an exceptional path of the caller."""
+    if run.spec_mode:
+        return
+    if not run.branch(cond):
+        raise PyRaise('ValueError', what)
+
+
 def binop(lib, run, op, a, b, inplace=False):
     if isinstance(a, SeqV) and a.kind == 'R' and isinstance(b, SeqV) and b.kind == 'R' and not a.pylist:
         if op == 'Add':
-            if not run.spec_mode:
-                run.emit('safe.shape', T.rlen(a.term) == T.rlen(b.term), 'operands of + have equal length')
+            _shape_guard(run, T.rlen(a.term) == T.rlen(b.term), 'operands could not be broadcast together')
             return SeqV('R', radd(a.term, b.term))
         if op == 'Mult':
             return SeqV('R', rmul(a.term, b.term))
@@ -48,12 +55,261 @@ def binop(lib, run, op, a, b, inplace=False):
         k = intterm(b)
         return SeqV('I', F('ishift', ISeq, Int, ISeq)(a.term, k if op == 'Add' else -k))
     if isinstance(a, MatV) and isinstance(b, MatV):
+        _shape_guard(run, z3.And(mrows(a.term) == mrows(b.term), mcols(a.term) == mcols(b.term)),
+                     'operands could not be broadcast together')
         if op == 'Add':
             return MatV(madd(a.term, b.term))
         if op == 'Mult':
             return MatV(mmul(a.term, b.term))
+    if isinstance(a, MatV) and isinstance(b, SeqV) and b.kind == 'R' and op == 'Mult':
+        # NumPy broadcasting of (m, d) * (k,): k == d multiplies every row; d == 1 gives the (m, k) outer product
+        if run.branch(mcols(a.term) == T.rlen(b.term)):
+            return MatV(mrowmul(a.term, b.term))
+        if run.branch(mcols(a.term) == 1):
+            return MatV(mouter(mcol(a.term, 0), b.term))
+        if run.branch(T.rlen(b.term) == 1):
+            return MatV(mscale(T.rat(b.term, 0), a.term))
+        raise PyRaise('ValueError', 'operands could not be broadcast together')
     if isinstance(a, (Num, BoolV)) and isinstance(b, MatV) and op == 'Mult':
         return MatV(mscale(real(a), b.term))
     if isinstance(b, (Num, BoolV)) and isinstance(a, MatV) and op == 'Mult':
         return MatV(mscale(real(b), a.term))
     raise Unsupported('operator %s on %r and %r' % (op, a, b))
+
+
+# ------------------------------------------------------------------------------------ linear algebra
+from .libcalls import reg, mrow, mat_at, _size      # noqa
+from .libnp import lemask, ltmask                     # noqa
+
+zeros = F('zeros', Int, RSeq)
+ident = F('ident', Int, Mat)
+mT = F('mtranspose', Mat, Mat)
+mdot = F('mdot', Mat, Mat, Mat)
+matvec = F('matvec', Mat, RSeq, RSeq)
+vecmat = F('vecmat', RSeq, Mat, RSeq)
+vdot = F('vdot', RSeq, RSeq, Real)
+minv = F('minv', Mat, Mat)
+rowsum = F('rowsum', Mat, RSeq)
+rsqrt = F('rsqrt', RSeq, RSeq)
+mzeros = F('mzeros', Int, Int, Mat)
+v_, w_ = z3.Consts('v w', RSeq)
+i_, d_ = z3.Ints('i d')
+axiom('zeros', forall([d_], z3.Implies(d_ >= 0, T.rlen(zeros(d_)) == d_), [zeros(d_)]), ['zeros'], 'numpy')
+axiom('zeros.at', forall([d_, i_], T.rat(zeros(d_), i_) == 0, [T.rat(zeros(d_), i_)]), ['zeros'], 'numpy')
+axiom('zeros.sum', forall([d_], T.rsum(zeros(d_)) == 0, [T.rsum(zeros(d_))]), ['zeros'], 'numpy')
+axiom('ident.shape', forall([d_], z3.Implies(d_ >= 0, z3.And(mrows(ident(d_)) == d_, mcols(ident(d_)) == d_)),
+                            [ident(d_)]), ['ident'], 'numpy')
+axiom('mT.shape', forall([A_], z3.And(mrows(mT(A_)) == mcols(A_), mcols(mT(A_)) == mrows(A_)), [mT(A_)]),
+      ['mtranspose'], 'numpy')
+axiom('mT.mT', forall([A_], mT(mT(A_)) == A_, [mT(mT(A_))]), ['mtranspose'], 'algebra')
+axiom('mdot.shape', forall([A_, B_], z3.And(mrows(mdot(A_, B_)) == mrows(A_), mcols(mdot(A_, B_)) == mcols(B_)),
+                           [mdot(A_, B_)]), ['mdot'], 'numpy')
+axiom('matvec.len', forall([A_, v_], T.rlen(matvec(A_, v_)) == mrows(A_), [matvec(A_, v_)]), ['matvec'], 'numpy')
+axiom('vecmat.len', forall([v_, A_], T.rlen(vecmat(v_, A_)) == mcols(A_), [vecmat(v_, A_)]), ['vecmat'], 'numpy')
+axiom('rowsum.len', forall([A_], T.rlen(rowsum(A_)) == mrows(A_), [rowsum(A_)]), ['rowsum'], 'numpy')
+axiom('rsqrt.len', forall([v_], T.rlen(rsqrt(v_)) == T.rlen(v_), [rsqrt(v_)]), ['rsqrt'], 'numpy')
+axiom('rsqrt.at', forall([v_, i_], T.rat(rsqrt(v_), i_) == T.sqrt(T.rat(v_, i_)), [T.rat(rsqrt(v_), i_)]), ['rsqrt'],
+      'numpy')
+axiom('minv.shape', forall([A_], z3.And(mrows(minv(A_)) == mrows(A_), mcols(minv(A_)) == mcols(A_)), [minv(A_)]),
+      ['minv'], 'numpy')
+# row-wise reading of the vectorised expressions (A4)
+axiom('matvec.at', forall([A_, v_, i_], T.rat(matvec(A_, v_), i_) == vdot(mrow(A_, i_), v_), [T.rat(matvec(A_, v_), i_)]),
+      ['matvec'], 'algebra')
+axiom('mdot.row', forall([A_, B_, i_], mrow(mdot(A_, B_), i_) == vecmat(mrow(A_, i_), B_), [mrow(mdot(A_, B_), i_)]),
+      ['mdot'], 'algebra')
+axiom('rowsum.mmul', forall([A_, B_, i_], T.rat(rowsum(mmul(A_, B_)), i_) == vdot(mrow(A_, i_), mrow(B_, i_)),
+                            [T.rat(rowsum(mmul(A_, B_)), i_)]), ['rowsum'], 'algebra')
+# algebra used by the initial model (A3)
+axiom('matvec.zeros', forall([A_, d_], z3.Implies(mcols(A_) == d_, matvec(A_, zeros(d_)) == zeros(mrows(A_))),
+                             [matvec(A_, zeros(d_))]), ['matvec'], 'algebra')
+axiom('vdot.zeros', forall([v_, d_], vdot(v_, zeros(d_)) == 0, [vdot(v_, zeros(d_))]), ['vdot'], 'algebra')
+axiom('minv.scaled.ident', forall([x_, d_], z3.Implies(x_ != 0, minv(mscale(x_, ident(d_))) == mscale(1 / x_, ident(d_))),
+                                  [minv(mscale(x_, ident(d_)))]), ['minv'], 'algebra')
+axiom('mzeros.shape', forall([i_, d_], z3.Implies(z3.And(i_ >= 0, d_ >= 0),
+                                                  z3.And(mrows(mzeros(i_, d_)) == i_, mcols(mzeros(i_, d_)) == d_)),
+                             [mzeros(i_, d_)]), ['mzeros'], 'numpy')
+
+
+
+
+@reg('np.zeros')
+def _zeros(lib, run, recv, args, kw):
+    sz = _size(args[0])
+    if sz[0] == 'n':
+        return SeqV('R', zeros(sz[1]))
+    return MatV(mzeros(sz[1], sz[2]))
+
+
+@reg('np.empty')
+def _empty(lib, run, recv, args, kw):
+    sz = _size(args[0])
+    if sz[0] == 'n':
+        v = fresh('empty', RSeq)
+        run.st.assume(T.rlen(v) == sz[1])
+        return SeqV('R', v)
+    m = fresh('empty', Mat)
+    run.st.assume(z3.And(mrows(m) == sz[1], mcols(m) == sz[2]))
+    return MatV(m)
+
+
+@reg('np.identity')
+def _identity(lib, run, recv, args, kw):
+    return MatV(ident(intterm(args[0] if args else kw['n'])))
+
+
+@reg('mat.copy')
+def _mcopy(lib, run, recv, args, kw):
+    return recv
+
+
+@reg('mat.astype', 'seq.astype')
+def _astype(lib, run, recv, args, kw):
+    return recv         # A1: dtype changes are invisible
+
+
+@reg('np.dot')
+def _dot(lib, run, recv, args, kw):
+    a, b = args
+    if isinstance(a, MatV) and isinstance(b, MatV):
+        _shape_guard(run, mcols(a.term) == mrows(b.term), 'np.dot: shapes not aligned')
+        return MatV(mdot(a.term, b.term))
+    if isinstance(a, MatV) and isinstance(b, SeqV) and b.kind == 'R':
+        _shape_guard(run, mcols(a.term) == T.rlen(b.term), 'np.dot: shapes not aligned')
+        return SeqV('R', matvec(a.term, b.term))
+    if isinstance(a, SeqV) and a.kind == 'R' and isinstance(b, MatV):
+        _shape_guard(run, T.rlen(a.term) == mrows(b.term), 'np.dot: shapes not aligned')
+        return SeqV('R', vecmat(a.term, b.term))
+    if isinstance(a, SeqV) and isinstance(b, SeqV) and a.kind == b.kind == 'R':
+        _shape_guard(run, T.rlen(a.term) == T.rlen(b.term), 'np.dot: shapes not aligned')
+        return Num(vdot(a.term, b.term))
+    raise Unsupported('np.dot(%r, %r)' % (a, b))
+
+
+@reg('np.linalg.inv')
+def _inv(lib, run, recv, args, kw):
+    a = args[0]
+    run.note('lib:np.linalg.inv returns the inverse (A3); singular input not modelled (l2_lambda > 0)')
+    return MatV(minv(a.term))
+
+
+@reg('np.sum')
+def _npsum(lib, run, recv, args, kw):
+    a = args[0]
+    ax = kw.get('axis', args[1] if len(args) > 1 else None)
+    if isinstance(a, MatV) and isinstance(ax, Num) and ax.concrete() == 1:
+        return SeqV('R', rowsum(a.term))
+    if isinstance(a, SeqV) and a.kind == 'R' and (ax is None or isinstance(ax, NoneV)):
+        return Num(T.rsum(a.term))
+    raise Unsupported('np.sum arguments')
+
+
+@reg('np.where')
+def _where(lib, run, recv, args, kw):
+    m = args[0]
+    if len(args) == 1 and isinstance(m, SeqV) and m.kind == 'B':
+        return TupleV([SeqV('I', where(m.term))])
+    raise Unsupported('np.where arguments')
+
+
+@reg('seq.nonzero')
+def _nonzero(lib, run, recv, args, kw):
+    if recv.kind == 'B':
+        return TupleV([SeqV('I', where(recv.term))])
+    raise Unsupported('nonzero of non-mask')
+
+
+@reg('seq.reshape')
+def _reshape(lib, run, recv, args, kw):
+    if len(args) == 1 and isinstance(args[0], Num) and args[0].concrete() == -1:
+        return recv
+    raise Unsupported('reshape of a vector')
+
+
+where = F('where', BSeq, ISeq)
+iota = F('iota', Int, ISeq)
+m_ = z3.Const('m', BSeq)
+u_ = z3.Const('u', ISeq)
+k_ = z3.Int('k')
+axiom('where.len', forall([m_], ilen(where(m_)) == T.bcnt(m_), [where(m_)]), ['where'], 'numpy')
+axiom('where.all', forall([m_], z3.Implies(T.bcnt(m_) == T.blen(m_), where(m_) == iota(T.blen(m_))), [where(m_)]),
+      ['where'], 'numpy')
+axiom('where.at', forall([m_, k_], z3.Implies(z3.And(0 <= k_, k_ < T.bcnt(m_)),
+                                              z3.And(0 <= iat(where(m_), k_), iat(where(m_), k_) < T.blen(m_),
+                                                     T.bat(m_, iat(where(m_), k_)))), [iat(where(m_), k_)]),
+      ['where'], 'numpy')
+axiom('iota.len', forall([d_], z3.Implies(d_ >= 0, ilen(iota(d_)) == d_), [iota(d_)]), ['iota'], 'numpy')
+axiom('iota.at', forall([d_, i_], iat(iota(d_), i_) == i_, [iat(iota(d_), i_)]), ['iota'], 'numpy')
+mtake = F('mtake', Mat, ISeq, Mat)
+rtake = F('rtake', RSeq, ISeq, RSeq)
+atake = F('atake', ASeq, ISeq, ASeq)
+s_ = z3.Const('s', ASeq)
+axiom('mtake.shape', forall([A_, u_], z3.And(mrows(mtake(A_, u_)) == ilen(u_), mcols(mtake(A_, u_)) == mcols(A_)),
+                            [mtake(A_, u_)]), ['mtake'], 'numpy')
+axiom('mtake.row', forall([A_, u_, i_], mrow(mtake(A_, u_), i_) == mrow(A_, iat(u_, i_)), [mrow(mtake(A_, u_), i_)]),
+      ['mtake'], 'numpy')
+axiom('mtake.iota', forall([A_], mtake(A_, iota(mrows(A_))) == A_, [mtake(A_, iota(mrows(A_)))]), ['mtake'], 'numpy')
+axiom('rtake.len', forall([v_, u_], T.rlen(rtake(v_, u_)) == ilen(u_), [rtake(v_, u_)]), ['rtake'], 'numpy')
+axiom('rtake.at', forall([v_, u_, i_], T.rat(rtake(v_, u_), i_) == T.rat(v_, iat(u_, i_)), [T.rat(rtake(v_, u_), i_)]),
+      ['rtake'], 'numpy')
+axiom('rtake.where', forall([v_, m_], rtake(v_, where(m_)) == T.rsel(v_, m_), [rtake(v_, where(m_))]), ['rtake'],
+      'numpy')
+axiom('atake.len', forall([s_, u_], T.alen(atake(s_, u_)) == ilen(u_), [atake(s_, u_)]), ['atake'], 'numpy')
+axiom('atake.at', forall([s_, u_, i_], T.aat(atake(s_, u_), i_) == T.aat(s_, iat(u_, i_)), [T.aat(atake(s_, u_), i_)]),
+      ['atake'], 'numpy')
+msel = F('msel', Mat, BSeq, Mat)
+axiom('msel.where', forall([A_, m_], mtake(A_, where(m_)) == msel(A_, m_), [mtake(A_, where(m_))]), ['mtake'], 'numpy')
+axiom('msel.shape', forall([A_, m_], z3.And(mrows(msel(A_, m_)) == T.bcnt(m_), mcols(msel(A_, m_)) == mcols(A_)),
+                           [msel(A_, m_)]), ['msel'], 'numpy')
+
+
+mrowmul = F('mrowmul', Mat, RSeq, Mat)       # every row of M multiplied element-wise by v
+mouter = F('mouter', RSeq, RSeq, Mat)        # outer product u v'
+mcol = F('mcol', Mat, Int, RSeq)
+axiom('mrowmul.shape', forall([A_, v_], z3.And(mrows(mrowmul(A_, v_)) == mrows(A_), mcols(mrowmul(A_, v_)) == mcols(A_)),
+                              [mrowmul(A_, v_)]), ['mrowmul'], 'numpy')
+axiom('rowsum.mrowmul', forall([A_, v_, i_], T.rat(rowsum(mrowmul(A_, v_)), i_) == vdot(mrow(A_, i_), v_),
+                               [T.rat(rowsum(mrowmul(A_, v_)), i_)]), ['mrowmul'], 'algebra')
+axiom('mouter.shape', forall([v_, w_], z3.And(mrows(mouter(v_, w_)) == T.rlen(v_), mcols(mouter(v_, w_)) == T.rlen(w_)),
+                             [mouter(v_, w_)]), ['mouter'], 'numpy')
+axiom('rowsum.mouter', forall([v_, w_, i_], T.rat(rowsum(mouter(v_, w_)), i_) == T.rat(v_, i_) * T.rsum(w_),
+                              [T.rat(rowsum(mouter(v_, w_)), i_)]), ['mouter'], 'algebra')
+axiom('rowsum.mscale', forall([x_, A_, i_], T.rat(rowsum(mscale(x_, A_)), i_) == x_ * T.rsum(mrow(A_, i_)),
+                              [T.rat(rowsum(mscale(x_, A_)), i_)]), ['rowsum'], 'algebra')
+axiom('vdot.len1', forall([v_, w_], z3.Implies(z3.And(T.rlen(v_) == 1, T.rlen(w_) == 1),
+                                               vdot(v_, w_) == T.rat(v_, 0) * T.rat(w_, 0)), [vdot(v_, w_)]),
+      ['vdot'], 'algebra')
+axiom('rsum.len1', forall([v_], z3.Implies(T.rlen(v_) == 1, T.rsum(v_) == T.rat(v_, 0)), [T.rsum(v_)]), ['rsum'],
+      'definitional')
+
+col1 = F('col1', RSeq, Mat)           # a vector as an (n, 1) matrix
+mat11 = F('mat11', Real, Mat)
+from .libcalls import row1, mcol as _mcol   # noqa
+axiom('col1', forall([v_], z3.And(mrows(col1(v_)) == T.rlen(v_), mcols(col1(v_)) == 1, _mcol(col1(v_), 0) == v_),
+                     [col1(v_)]), ['col1'], 'numpy')
+axiom('col1.at', forall([v_, i_], mat_at(col1(v_), i_, 0) == T.rat(v_, i_), [mat_at(col1(v_), i_, 0)]), ['col1'], 'numpy')
+axiom('mat11', forall([x_], z3.And(mrows(mat11(x_)) == 1, mcols(mat11(x_)) == 1, mat_at(mat11(x_), 0, 0) == x_),
+                      [mat11(x_)]), ['mat11'], 'numpy')
+
+
+@reg('np.reshape')
+def _np_reshape(lib, run, recv, args, kw):
+    a, shape = args[0], args[1]
+    if not (isinstance(shape, TupleV) and len(shape.items) == 2):
+        raise Unsupported('np.reshape to a non-2D shape')
+    m, d = intterm(shape.items[0]), intterm(shape.items[1])
+    if isinstance(a, MatV):
+        _shape_guard(run, mrows(a.term) * mcols(a.term) == m * d, 'cannot reshape array')
+        if run.branch(z3.And(mrows(a.term) == m, mcols(a.term) == d)):
+            return a
+        raise Unsupported('np.reshape of a matrix to a different shape')
+    if isinstance(a, SeqV) and a.kind == 'R':
+        _shape_guard(run, T.rlen(a.term) == m * d, 'cannot reshape array')
+        if run.branch(m == 1):
+            return MatV(row1(a.term))
+        if run.branch(d == 1):
+            return MatV(col1(a.term))
+        raise Unsupported('np.reshape of a vector to a general matrix')
+    if isinstance(a, Num):
+        _shape_guard(run, m * d == 1, 'cannot reshape array')
+        return MatV(mat11(real(a)))
+    raise Unsupported('np.reshape(%r)' % (a,))
